@@ -248,7 +248,7 @@ for tag, (cpp, n, sg) in INT_TYPES.items():
         gen(d_bf, 'findNSB', F_EXTV if L else F_EXT, tag, L, [('T', 'x'), ('IV', 'k')], 'int',
             [('count_at_least_1', lambda c: '(s32)%s >= 1' % c['k'])],
             [('position_of_kth_set_bit_or_minus_1', lambda c: '(s32)%s == spec_nth_set_bit((u64)%s, %d, (s32)%s)' % (c['R'], c['x'], n, c['k']))],
-            timeout=900, tier='quick' if (L == 0 and n <= 16) else 'thorough')
+            timeout=3600 if (n == 64 and L) else 900, tier='quick' if (L == 0 and n <= 16) else 'thorough')
         gen(d_bf, 'mask', F_BF, tag, L, [('T', 'b')], 'T',
             [('count_within_width', lambda c: ('(%s)%s >= 0 && ' % (S(tag), c['b']) if sg else '') + '%s <= %d' % (c['b'], n))],
             [('low_b_bits_set', lambda c: '%s == (%s)spec_ones(0, %s)' % (c['R'], U(tag), c['b']))])
@@ -327,7 +327,7 @@ for tin, tout in (('u8', 'u16'), ('u16', 'u32'), ('u32', 'u64')):
 # value-bounded: each function has a small-bound contract in the per-change tier and a larger one in the thorough tier
 # (two shims of the same call, because a contract is keyed by its shim).
 XI = dict(build=B[d_gx.name])
-for sfx_, ymax, tier_ in (('_y3', 3, 'quick'), ('', 12, 'thorough')):
+for sfx_, ymax, tier_ in (('_y2', 2, 'quick'), ('', 12, 'thorough')):
     d_gx.shim('glm_pow_i32' + sfx_, 'int32_t', [('int32_t', 'x'), ('uint8_t', 'y')], 'return glm::pow(x, static_cast<glm::uint>(y));')
     d_gx.shim('glm_pow_u32' + sfx_, 'uint32_t', [('uint32_t', 'x'), ('uint8_t', 'y')], 'return glm::pow(x, static_cast<glm::uint>(y));')
     P.contract('glm_pow_i32' + sfx_, 'glm::pow(int, uint)  ' + F_XI, unwind=ymax + 2, bounded='y <= %d' % ymax, backends=('sat', 'z3'), timeout=300, tier=tier_,
